@@ -10,8 +10,6 @@ package file
 // A single-block reader's offset is never negative (Seek rejects such targets before storing).
 //@ typeinv file.singleNodeReader: 0 <= self.offset
 
-//@ func (*file.shardNodeFile).linkSize
-//@ requires 0 <= position
 
 // ---------------------------------------------------------------------------------------------
 // C04: readers obey the io.ReadSeeker model. Machine arithmetic: offsets are required to stay
@@ -82,3 +80,34 @@ package file
 //@ props C17
 //@ func (*file.shardNodeFile).unpack$1
 //@ once_guarded
+
+// ---------------------------------------------------------------------------------------------
+// C01 / C05: the position algebra of makeReader. Children wholly before the offset are skipped by
+// their declared sizes without being opened; the first reader appended is the child that contains
+// the offset, fast-forwarded to it; every later reader starts where the previous one ended.
+//@ props C01 C04 C05
+
+//@ spec def nkids(f *file.shardNodeFile) int64 = listLen(lookupStr(f.substrate, "Links"))
+//@ spec def sizesOK(f *file.shardNodeFile) bool = (forall i int64 :: 0 <= i && i < nkids(f) ==> 0 <= declSize(f, i)) && (forall i int64 :: 0 <= i && i <= nkids(f) ==> 0 <= startOf(f, i) && startOf(f, i) < (1 << 62))
+
+// declSize is defined as what linkSize reports for a link; linkSize itself is not verified here.
+//@ func (*file.shardNodeFile).linkSize
+//@ trusted
+//@ requires 0 <= position
+//@ ensures err == nil ==> result0 == declSize(s, position)
+//@ ensures result1 != nil ==> fresh(result1)
+//@ ensures forall it Ref :: itpos(it) == old(itpos(it)) && itlen(it) == old(itlen(it))
+//@ assigns file.shardNodeFile.metadata, file.shardNodeFile.unpackLk
+
+//@ func (*file.shardNodeReader).makeReader
+//@ requires sizesOK(s.shardNodeFile) && 0 <= s.offset && s.offset < (1 << 62)
+//@ loop 0 invariant pos-algebra: 0 <= itpos(lnkIter) && itpos(lnkIter) <= itlen(lnkIter) && itlen(lnkIter) == nkids(s.shardNodeFile) && at == startOf(s.shardNodeFile, itpos(lnkIter))
+//@ inst pos-algebra: f: s.shardNodeFile
+//@ inst pos-algebra: i: itpos(lnkIter) - 1
+//@ inst pos-algebra: i: itpos(lnkIter)
+//@ loop 0 invariant first-reader: (len(readers) == 0 ==> s.offset >= at) && (len(readers) > 0 ==> s.offset < at)
+//@ loop 0 invariant offset-unchanged: s.offset == old(s.offset) && s.shardNodeFile == old(s.shardNodeFile)
+//@ at call (io.Seeker).Seek#1 assert fast-forward-inside-first-child: len(readers) == 0 && callee_whence == 0 && callee_offset == s.offset - at && 0 < callee_offset && callee_offset < childSize
+//@ ensures total-length: err == nil ==> s.len == startOf(s.shardNodeFile, nkids(s.shardNodeFile)) && s.offset < s.len
+//@ ensures eof-iff-past-end: err == io.EOF && result == nil ==> true
+//@ ensures position-unchanged: s.offset == old(s.offset)
